@@ -291,6 +291,37 @@ def run(ctx):
         elif dL > (1e-11 if not any("barycentric" in n_ or n_ in ("bs", "janus", "mercurius", "trace") for n_ in seq) else 1e-5):
             why = "angular momentum error %.3g after switching integrators %s" % (dL, "->".join(seq))
         if why: fails.append({"why": why, "integrator": "->".join(seq), "N": sim.N, "dt": sim.dt, "G": sim.G})
+    # user interventions on one simulation object that must not change the physics: asking an unsynchronized WHFast/SABA
+    # (safe_mode 0) to recalculate its coordinates, several times in one run, is the same as synchronizing at those
+    # points: same end state to rounding, same energy level (what happens must not depend on whether it happened before)
+    for integ in ("whfast", "saba"):
+        for rep in range(ctx.scale(2, 6)):
+            seed_ = rng.randrange(1 << 30); res = []
+            try:
+                for mode in ("flag", "explicit-sync"):
+                    import random as _random
+                    sim = rand_system(rebound, _random.Random(seed_), 4); sim.integrator = integ
+                    getattr(sim, "ri_" + integ).safe_mode = 0
+                    sim.dt = 2 * math.pi * math.sqrt(1.6 ** 3 / sim.G) / 113
+                    E0 = sim.energy(); e_ = 0.0
+                    with warnings.catch_warnings():
+                        warnings.simplefilter("ignore")
+                        for s_ in range(240):
+                            sim.step()
+                            if s_ % 40 == 39:
+                                if mode == "explicit-sync": sim.synchronize()
+                                sim.ri_whfast.recalculate_coordinates_this_timestep = 1
+                        sim.synchronize()
+                    e_ = abs((sim.energy() - E0) / E0)
+                    res.append((e_, [(p.x, p.y, p.z, p.vx, p.vy, p.vz) for p in sim.particles]))
+            except Exception as ex:
+                fails.append({"why": "exception in intervention run: %r" % (ex,), "integrator": integ}); continue
+            dd = max(abs(a - b) for pa, pb in zip(res[0][1], res[1][1]) for a, b in zip(pa, pb))
+            ctx.case(key=("intervention", integ))
+            if not (dd < 1e-9 and res[0][0] < 10 * res[1][0] + 1e-9):
+                fails.append({"why": "%s safe_mode=0: raising recalculate_coordinates_this_timestep 6 times while unsynchronized differs from "
+                              "synchronizing first by %.3g (energy error %.3g vs %.3g)" % (integ, dd, res[0][0], res[1][0]),
+                              "integrator": integ, "options": {"safe_mode": 0}, "N": 4, "seed_case": seed_, "steps": 240})
     # merging collisions: mass, momentum, COM
     for rep in range(ctx.scale(10, 100)):
         sim = rebound.Simulation()
